@@ -70,6 +70,10 @@ def draw_hierarchy(ch, params):
             for _ in range(min(k, i)):
                 c["bases"].append(pool.pop(ch.draw(len(pool), "base")))
             c["bases"].sort(reverse=True)  # later classes first keeps the MRO linearisable
+        # a PLAIN class (no Component among its ancestors): an assets mixin such as `class VendorAssets: class Media: ...`,
+        # possibly inheriting its nested Media from another plain class; Component classes list them among their bases
+        if all(classes[b].get("plain") for b in c["bases"]) and ch.chance(1, 5, "plain"):
+            c["plain"] = True
         mk = ch.weighted([3, 1, 6], "media_kind")  # none / empty / with files
         if mk:
             m = {"js": None, "css": None, "extend": True}
@@ -93,15 +97,19 @@ def draw_hierarchy(ch, params):
                 m["extend"] = False
             elif ek == 2 and i > 0:
                 m["extend"] = sorted(set(ch.draw(i, "ext_cls") for _ in range(1 + ch.draw(2, "n_ext"))), reverse=True)
+            if c.get("plain"):
+                # a plain class's Media is handed to django.forms.Media as it is: Django's own forms only (list, dict of lists)
+                m["js"] = js_list(m["js"]) or None
+                m["css"] = css_dict(m["css"]) or None
             c["media"] = m
         for attr in ("template", "js", "css"):
             # none / inline / file / both (rejected) / both with an EMPTY inline member (rejected too: "" is a definition)
             # / empty inline member alone (a definition: overrides the parents)
-            pk = ch.weighted([5, 4, 2, 1, 1, 1], "pair_" + attr)
+            pk = 0 if c.get("plain") else ch.weighted([5, 4, 2, 1, 1, 1], "pair_" + attr)
             c["pairs"][attr] = pk
         # a custom `media_class` (public attribute; a plain subclass of django.forms.Media): one more dimension of the
         # hierarchy space - the merged files and their order do not depend on it (seeded change C16d-3)
-        c["media_class"] = ch.chance(1, 3, "media_class")
+        c["media_class"] = (not c.get("plain")) and ch.chance(1, 3, "media_class")
         classes.append(c)
     return classes
 
@@ -131,7 +139,7 @@ def js_list(js):
     return [js] if isinstance(js, str) else list(js)
 
 
-def expected_media(classes, i, memo=None):
+def expected_media(classes, i, memo=None, rel=None):
     """({js set}, {medium: css set}, [declared lists as (kind, medium, list)]) of class i."""
     memo = {} if memo is None else memo
     if i in memo:
@@ -145,6 +153,13 @@ def expected_media(classes, i, memo=None):
     for k in mro_of(classes, i):
         if classes[k]["media"] is not None:
             m = classes[k]["media"]
+            if rel and not classes[k].get("plain"):
+                # files that exist next to the component module are addressed relative to the components directory
+                # (only in the Media of COMPONENT classes: a plain mixin's Media goes to django.forms.Media as it is)
+                m_ = (lambda f_: "sub/" + f_ if f_ in rel else f_)
+                m = {"js": [m_(f_) for f_ in js_list(m["js"])] or None,
+                     "css": {k_: [m_(f_) for f_ in v_] for k_, v_ in css_dict(m["css"]).items()} or None,
+                     "extend": m["extend"]}
             break
     js = set()
     css = {}
@@ -166,7 +181,7 @@ def expected_media(classes, i, memo=None):
     else:
         sel = extend
     for b in sel:
-        bj, bc, bl = expected_media(classes, b, memo)
+        bj, bc, bl = expected_media(classes, b, memo, rel)
         js |= bj
         for medium, files in bc.items():
             css.setdefault(medium, set()).update(files)
@@ -229,7 +244,7 @@ def mro_of(classes, i):
 def expected_pair(classes, i, attr, content):
     """(inline value, file value) per the MRO pair rule."""
     for k in mro_of(classes, i):
-        pk = classes[k]["pairs"][attr]
+        pk = classes[k]["pairs"].get(attr, 0)
         if pk == 1:
             return content(k, attr, "inline"), None
         if pk == 5:
@@ -284,10 +299,14 @@ def build(classes, copy, tmpdir, rel=None):
                     f.write("/* " + name + " */")
     real = []
     for i, c in enumerate(classes):
-        bases = tuple(real[b] for b in c["bases"]) or (Component,)
+        bases = tuple(real[b] for b in c["bases"])
         if any(b is None for b in bases):
             real.append(None)
             continue
+        if c.get("plain"):
+            bases = bases or (object,)
+        elif not any(isinstance(b, type) and issubclass(b, Component) for b in bases):
+            bases = bases + (Component,)   # e.g. class Chart(ChartAssets, Component)
         attrs = {"__module__": module}
         if c.get("media_class"):
             attrs["media_class"] = _sim_media_class()
@@ -383,7 +402,7 @@ def run(ch, params, decoded=False):
                 failed = 0
                 for sub in range(n):
                     cls = copies[0][sub]
-                    if cls is None or ci not in mro_of(classes, sub):
+                    if cls is None or classes[sub].get("plain") or ci not in mro_of(classes, sub):
                         continue
                     try:
                         read(cls, attr, 0)
@@ -396,7 +415,7 @@ def run(ch, params, decoded=False):
             for copy, schedule in ((0, sched_a), (1, sched_b)):
                 for ci, attr, inst in schedule:
                     cls = copies[copy][ci]
-                    if cls is None:
+                    if cls is None or classes[ci].get("plain"):   # plain mixins have no `media` / `js` ... of their own
                         continue
                     try:
                         observed[copy].setdefault((ci, attr), read(cls, attr, inst))
@@ -411,7 +430,7 @@ def run(ch, params, decoded=False):
             for copy in (0, 1):
                 for ci in range(n):
                     cls = copies[copy][ci]
-                    if cls is None:
+                    if cls is None or classes[ci].get("plain"):
                         continue
                     for attr in ATTRS:
                         if (ci, attr) not in observed[copy]:
@@ -420,7 +439,7 @@ def run(ch, params, decoded=False):
         multi = 0
         if not violations:
             for ci in range(n):
-                if copies[0][ci] is None:
+                if copies[0][ci] is None or classes[ci].get("plain"):
                     continue
                 # (b) history independence
                 for attr in ATTRS:
@@ -433,12 +452,7 @@ def run(ch, params, decoded=False):
                     break
                 # (a) media model
                 got = observed[0][(ci, "media")]
-                ejs, ecss, lists = expected_media(classes, ci, memo)
-                if rel:
-                    m_ = (lambda f_: "sub/" + f_ if f_ in rel else f_)
-                    ejs = {m_(f_) for f_ in ejs}
-                    ecss = {k_: {m_(f_) for f_ in v_} for k_, v_ in ecss.items()}
-                    lists = [(kind_, med_, [m_(f_) for f_ in l_]) for kind_, med_, l_ in lists]
+                ejs, ecss, lists = expected_media(classes, ci, memo, rel)
                 if len(classes[ci]["bases"]) > 1 or (classes[ci]["media"] and isinstance(classes[ci]["media"]["extend"], list)):
                     multi += 1
                 if len(got["js"]) != len(set(got["js"])) or any(len(f) != len(set(f)) for f in got["css"].values()):
@@ -475,6 +489,7 @@ def run(ch, params, decoded=False):
                     break
         stats["probe:multiple_inheritance_or_extend_list"] = multi
         stats["probe:relative_media_paths"] = 1 if rel else 0
+        stats["probe:plain_mixin_among_the_bases"] = 1 if any(c.get("plain") for c in classes) else 0
         stats["probe:rejected_double_definition"] = sum(1 for c in classes if any(pk in (3, 4) for pk in c["pairs"].values()))
     finally:
         shutil.rmtree(tmpdir, ignore_errors=True)
